@@ -128,6 +128,131 @@ inductive Reachable (h : Bool) : State → Prop where
 /-- everything has returned and nothing is pending -/
 def AllDone (s : State) : Prop := s.frames = [] ∧ s.pending = []
 
+/-! ### Trace conformance: the event log of `threads.rs` replayed through the transition system
+
+Under `--cfg qvnt_verif` the lock and the pool of `src/threads.rs` are logging stand-ins
+(`verif::pool` in /repo): every acquisition / release of the `RwLock`, every entry of
+`global_install` and every `install` is recorded, with the thread it happened on, in the order
+it happened. `replay` checks that such a log is a run of `Step false` from an initial state in
+which nobody is inside `global_install` (`replay_sound`, Lemmas/PoolTrace.lean), i.e. that the
+implementation was only ever seen in states the C19 theorems speak about. -/
+
+/-- one logged event -/
+inductive Ev where
+  /-- `global_install(want, ..)` entered -/
+  | call (want : Nat)
+  /-- read lock acquired -/
+  | readAcq
+  /-- read lock released; `seen` = size of the stored pool while it was held -/
+  | readRel (seen : Option Nat)
+  /-- write lock acquired -/
+  | writeAcq
+  /-- write lock released; `size` = size of the pool stored now -/
+  | writeRel (size : Option Nat)
+  /-- `pool.install(op)` entered -/
+  | installBegin
+  /-- `pool.install(op)` returned -/
+  | installEnd
+deriving Repr, DecidableEq
+
+/-- zero or more steps -/
+inductive Steps (h : Bool) : State → State → Prop where
+  | refl (s : State) : Steps h s s
+  | tail {s s' s'' : State} : Steps h s s' → Step h s' s'' → Steps h s s''
+
+/-- does the event explain the move `pc → pc'` of a frame? -/
+def evMatches : Ev → Pc → Pc → Bool
+  | .readAcq, .start, .reading1 => true
+  | .readAcq, .wantPool, .reading3 => true
+  | .readRel _, .reading1, .wantPool => true
+  | .readRel _, .reading1, .wantWrite => true
+  | .readRel _, .reading3, .installing _ => true
+  | .writeAcq, .wantWrite, .writing => true
+  | .writeRel _, .writing, .wantPool => true
+  | _, _, _ => false
+
+/-- what the event shows of the stored pool agrees with the model's -/
+def evPayloadOK (s : State) (f : Frame) : Ev → Bool
+  | .readRel seen => seen == s.pool
+  | .writeRel size => size == some f.want
+  | _ => true
+
+/-- remove the first occurrence -/
+def removeFirst (x : Nat × Nat × Nat) : List (Nat × Nat × Nat) → Option (List (Nat × Nat × Nat) × List (Nat × Nat × Nat))
+  | [] => none
+  | y :: ys => if y = x then some ([], ys) else
+      match removeFirst x ys with
+      | some (pre, post) => some (y :: pre, post)
+      | none => none
+
+def isInstalling : Pc → Bool
+  | .installing _ => true
+  | _ => false
+
+/-- replay one event of thread `t`; `none` = the transition system cannot do that here -/
+def applyEv (s : State) (t : Nat) (e : Ev) : Option State :=
+  match e with
+  | .call want =>
+    match s.threads[t]? with
+    | none => none
+    | some stack =>
+      let free := match stack with
+        | [] => true
+        | f :: _ => isInstalling f.pc
+      if free then
+        match removeFirst (t, want, 0) s.pending with
+        | some (pre, post) =>
+          some { s with threads := s.threads.set t (⟨want, .start, 0⟩ :: stack), pending := pre ++ post }
+        | none => none
+      else none
+  | .installBegin =>
+    match s.threads[t]? with
+    | some (f :: _) => if isInstalling f.pc then some s else none
+    | _ => none
+  | .installEnd =>
+    match s.threads[t]? with
+    | some (f :: rest) =>
+      if f.pc = .installing 0 then some { s with threads := s.threads.set t rest } else none
+    | _ => none
+  | e =>
+    match s.threads[t]? with
+    | some (f :: rest) =>
+      match stepFrame false s f with
+      | some (f', p) =>
+        if evMatches e f.pc f'.pc && evPayloadOK s f e then
+          some { s with threads := s.threads.set t (f' :: rest),
+                         pool := match p with | some n => some n | none => s.pool }
+        else none
+      | none => none
+    | _ => none
+
+/-- replay a log; `.error i` = event number `i` is not a move of the transition system -/
+def replay (s : State) : List (Nat × Ev) → Nat → Except Nat State
+  | [], _ => .ok s
+  | (t, e) :: rest, i =>
+    match applyEv s t e with
+    | some s' => replay s' rest (i + 1)
+    | none => .error i
+
+/-- the calls of a log, as the pending tasks of the initial state -/
+def pendingOf : List (Nat × Ev) → List (Nat × Nat × Nat)
+  | [] => []
+  | (t, .call want) :: rest => (t, want, 0) :: pendingOf rest
+  | _ :: rest => pendingOf rest
+
+/-- the initial state a log is replayed from: `n` idle threads, the stored pool as it was,
+every call of the log pending -/
+def initOf (pool : Option Nat) (n : Nat) (log : List (Nat × Ev)) : State :=
+  ⟨pool, List.replicate n [], pendingOf log⟩
+
+/-- the whole check: every thread index is below `n`, the log is a run, and at its end every
+call has returned -/
+def conforms (pool : Option Nat) (n : Nat) (log : List (Nat × Ev)) : Bool :=
+  log.all (fun p => p.1 < n) &&
+  match replay (initOf pool n log) log 0 with
+  | .ok s => s.threads.flatten.isEmpty && s.pending.isEmpty
+  | .error _ => false
+
 /-! ### C08: an element-wise fill does not depend on the schedule -/
 
 /-- run the closure for the indices in the order `σ` (any split / steal order) -/
